@@ -85,6 +85,9 @@ func (c *tcpConsumer) Consume(p Pack) {
 		defer buffers.Put(buf)
 
 		p2.Write(buf, c.transport.Channels[:])
+		if buf.Len() == 0 { // 该通道未订阅：不能发送空的 websocket 消息
+			return
+		}
 
 		simhook.BeforeLock(&c.lockW)
 		c.lockW.Lock()
